@@ -216,7 +216,17 @@ func (s *Sim) genTick(rt *rapid.T, label string) int64 {
 	cur := s.Pool().GetCurrentTick()
 	lo, hi := roundDown(cltypes.MinInitializedTick+sp-1, sp), roundDown(cltypes.MaxTick, sp)
 	var t int64
-	switch rapid.IntRange(0, 9).Draw(rt, label+"Shape") {
+	switch rapid.IntRange(0, 11).Draw(rt, label+"Shape") {
+	case 10, 11: // a boundary tick of a live position: positions that meet or nest at shared ticks
+		var bs []int64
+		for _, id := range s.SortedKnown() {
+			bs = append(bs, s.Known[id].Lower, s.Known[id].Upper)
+		}
+		if len(bs) > 0 {
+			t = bs[rapid.IntRange(0, len(bs)-1).Draw(rt, label+"Boundary")]
+		} else {
+			t = roundDown(cur, sp)
+		}
 	case 0:
 		t = lo
 	case 1:
@@ -396,6 +406,57 @@ func (s *Sim) BeginUnlock(rt *rapid.T) {
 	s.Known[id] = rec
 	s.class("locked-position-unlocking")
 	s.log("beginUnlock#%d lock#%d", id, rec.LockID)
+}
+
+// Equalize makes two positions that meet at one tick (the upper bound of one is the lower bound of the other) hold
+// exactly the same liquidity, by withdrawing the difference from the larger one: the shared tick then has net liquidity
+// zero and gross liquidity 2L - "net is zero" and "nobody uses the tick" are different things.
+func (s *Sim) Equalize(rt *rapid.T) {
+	type pair struct{ a, b uint64 }
+	var pairs []pair
+	ids := s.SortedKnown()
+	now := s.C.Ctx.BlockTime()
+	for _, x := range ids {
+		for _, y := range ids {
+			if x != y && s.Known[x].Upper == s.Known[y].Lower && !s.Known[x].Bound(now) && !s.Known[y].Bound(now) {
+				pairs = append(pairs, pair{x, y})
+			}
+		}
+	}
+	if len(pairs) == 0 {
+		rt.Skip("no two positions meet at a tick")
+	}
+	pr := pairs[rapid.IntRange(0, len(pairs)-1).Draw(rt, "meetingPair")]
+	k := s.C.App.ConcentratedLiquidityKeeper
+	pa, err1 := k.GetPosition(s.C.Ctx, pr.a)
+	pb, err2 := k.GetPosition(s.C.Ctx, pr.b)
+	if err1 != nil || err2 != nil {
+		rt.Fatalf("positions %d/%d known to the harness are gone", pr.a, pr.b)
+	}
+	big, diff := pr.a, pa.Liquidity.Sub(pb.Liquidity)
+	if diff.IsNegative() {
+		big, diff = pr.b, diff.Neg()
+	}
+	if diff.IsZero() {
+		s.class("meeting-positions-already-equal")
+		return
+	}
+	rec := s.Known[big]
+	r := s.C.Exec(&cltypes.MsgWithdrawPosition{PositionId: big, Sender: chain.Actor(rec.Owner).String(), LiquidityAmount: diff})
+	if !r.OK() {
+		if s.StrictExit {
+			rt.Fatalf("MsgWithdrawPosition(#%d, %s) by its owner failed: %v [history %v]", big, diff, r.Err, s.Hist)
+		}
+		s.class("withdraw-rejected")
+		return
+	}
+	s.Gen++
+	s.Ev = &Event{Kind: "withdraw", ID: big, Owner: rec.Owner, Amt: diff, Full: false}
+	rec.Mods++
+	s.Known[big] = rec
+	s.LPOps++
+	s.class("meeting-positions-equalized")
+	s.log("equalize #%d/#%d at tick %d: withdraw#%d %s", pr.a, pr.b, s.Known[pr.a].Upper, big, diff)
 }
 
 func (s *Sim) pickPos(rt *rapid.T) (uint64, PosRec) {
@@ -783,6 +844,7 @@ func (s *Sim) actions() map[string]func(*rapid.T) {
 		"incentive":        s.CreateIncentive,
 		"time":             s.AdvanceTime,
 		"createLocked":     s.CreateLocked,
+		"equalize":         s.Equalize,
 		"beginUnlock":      s.BeginUnlock,
 	}
 }
